@@ -159,7 +159,24 @@ var PhredEncodings = []alphabet.Encoding{alphabet.Sanger, alphabet.Illumina1_3, 
 
 const specials = ">@+#;|:=,.~!*-_/\\'\"`^$%&()[]{}<?"
 
+// keywords are words that mean something to one of the formats when they
+// stand at the start of a line (BED/UCSC header lines, GFF directives, record
+// markers). As ordinary field text they are as valid as any other word.
+var keywords = []string{"track", "browser", "tracking_7", "browserContig", "Track", "chr", "gff-version", "sequence-region", "DNA", "RNA", "Protein",
+	"end-DNA", "date", "Type", "source-version", "EOF", "nan", "NULL", "seq", "id"}
+
+// genKeyword returns a keyword in about one case of twelve, "" otherwise.
+func genKeyword(t *rapid.T, label string) string {
+	if rapid.IntRange(0, 11).Draw(t, label+"-kw") != 0 {
+		return ""
+	}
+	return rapid.SampledFrom(keywords).Draw(t, label+"-kwv")
+}
+
 func genToken(t *rapid.T, label string, min, max int) string {
+	if kw := genKeyword(t, label); kw != "" && max >= 1 {
+		return kw
+	}
 	n := rapid.IntRange(min, max).Draw(t, label+"-len")
 	b := make([]byte, n)
 	for i := range b {
